@@ -238,13 +238,21 @@ def main():
     # unsupported constructs), the property-level native checks run against the real code; a failure there is a real
     # failing input.  A pass does NOT turn 'undecided' into 'ok'.
     fallback_used = False
-    if (undecided and not violations) or tier == 'thorough':
+    # code the verifier does not see (outside the functions under contract) differs from the pinned tree: bounded look at it
+    try:
+        import residue as RES
+        residue_diffs = RES.changed(prop, units, ledger) if units else []
+    except Exception as e:
+        residue_diffs = ['residue check failed: %r' % e]
+    for rd in residue_diffs:
+        print('NOTE property=%s code outside the contracts differs from the pinned tree: %s -> bounded native checks run as well' % (prop, rd))
+    if (undecided and not violations) or tier == 'thorough' or (residue_diffs and not violations):
         for fb in pc.get('fallback', []):
             import importlib
             mod = importlib.import_module(fb['module'])
             er = mod.run(prop, tier, fb)
             fallback_used = True
-            er['summary']['role'] = 'bounded stand-in (verifier undecided)' if undecided else 'thorough tier: bounded cross-check'
+            er['summary']['role'] = 'bounded stand-in (verifier undecided)' if undecided else ('bounded look at code outside the contracts that changed' if residue_diffs and tier != 'thorough' else 'thorough tier: bounded cross-check')
             bounded.append(er['summary'])
             for hrec in er['summary'].get('harnesses', []):
                 oname = 'native/%s [BOUNDED: %s]' % (hrec['harness'], hrec.get('bound', ''))
@@ -317,6 +325,7 @@ def main():
                 'bounded': bounded,
                 'extraction_rules': 'R0 drop logging/attrs/cfg-off items, R1 declared outline, R2 byte literals, R4 result name, R5 closure params, R6 external_body, R7 setter macro expansion, R8 for-desugar, R9 mut params, R10 by-value writer, R11 path flattening, R12 generic struct at &mut, R13 status matches!, R14 format pieces, R15 hoisted consts (DESIGN.md 3.2); erasure check passed for every extracted item',
                 'not_decided': pc.get('not_decided', []),
+                'changed_outside_contracts': residue_diffs,
             },
             'assumptions': pc.get('assumptions', []) + ['machine integers exact; usize = 64 bit', 'every item in coverage.trusted_base is assumed, not proved'],
             'wall_s': round(wall, 2), 'violations': len(seen_v),
